@@ -17,6 +17,9 @@ def kvBytes (fs : List String) (k : String) : Bytes :=
 def kvOptBytes (fs : List String) (k : String) : Option Bytes :=
   let v := kv fs k
   if v == "-" then none else if v == "e" then some [] else some (B.ofHex v)
+def kvLater (fs : List String) : List Bytes :=
+  let v := kv fs "later"
+  if v == "-" then [] else (v.splitOn ";").map (fun h => if h == "e" then [] else B.ofHex h)
 def kvSched (fs : List String) : List Nat :=
   let v := kv fs "sched"
   if v == "-" || v == "e" then [] else (v.splitOn ",").map String.toNat!
@@ -55,12 +58,13 @@ def clientOp (st : DState) (fs : List String) : DState × String :=
     let c1 := match kvOptBytes fs "stream" with
       | some b => { c0 with r := { c0.r with net := { c0.r.net with stream := c0.r.net.stream ++ b } } }
       | none => c0
-    if kv fs "sched" == "-" then c1 else { c1 with r := { c1.r with net := { c1.r.net with sched := kvSched fs } } }
+    let c2 := if kv fs "sched" == "-" then c1 else { c1 with r := { c1.r with net := { c1.r.net with sched := kvSched fs } } }
+    if kv fs "later" == "-" then c2 else { c2 with r := { c2.r with net := { c2.r.net with later := kvLater fs } } }
   match kv fs "op" with
   | "new" => ({ st with client := { r := { buf := [], net := { stream := [], sched := [] } } } }, "ok")
   | "connect" =>
     let env : ConnEnv := { tcpOk := kv fs "tcp" != "0", tlsOk := kv fs "tlsok" != "0" }
-    let net : Net := { stream := kvBytes fs "stream", sched := kvSched fs }
+    let net : Net := { stream := kvBytes fs "stream", sched := kvSched fs, later := kvLater fs }
     showRes showBool { c0 with writes := [] }
       (Client.connect c0 env net (kvBytes fs "login") (kvBytes fs "pw") (kvBytes fs "authz")
         (kv fs "starttls" == "1") (kvOptBytes fs "mech")) st
